@@ -248,7 +248,7 @@ func replayMain(t *testing.T) {
 		hung := false
 		select {
 		case <-done:
-		case <-time.After(hangAfter):
+		case <-hangSignal(cmd.Process.Pid, nil, done2(done)):
 			hung = true
 			cmd.Process.Signal(syscall.SIGQUIT)
 			select {
@@ -646,21 +646,13 @@ func checkMain(t *testing.T) {
 				doneCh := make(chan struct{})
 				hung := false
 				go func() { // watchdog: a run that makes no progress for a long time is a hang
-					tk := time.NewTicker(2 * time.Second)
-					defer tk.Stop()
-					for {
-						select {
-						case <-doneCh:
-							return
-						case <-tk.C:
-							if time.Since(time.Unix(0, lastLine.Load())) > hangAfter {
-								hung = true
-								cmd.Process.Signal(syscall.SIGQUIT)
-								time.Sleep(3 * time.Second)
-								cmd.Process.Kill()
-								return
-							}
-						}
+					select {
+					case <-doneCh:
+					case <-hangSignal(cmd.Process.Pid, &lastLine, doneCh):
+						hung = true
+						cmd.Process.Signal(syscall.SIGQUIT)
+						time.Sleep(3 * time.Second)
+						cmd.Process.Kill()
 					}
 				}()
 				sc := bufio.NewScanner(stdout)
@@ -796,7 +788,7 @@ func checkMain(t *testing.T) {
 			name := fmt.Sprintf("%s-%s-%d-%d.json", prop, sanitize(class), *fSeed, wl.Idx)
 			path := filepath.Join(outDir, "replays", name)
 			js, _ := json.MarshalIndent(&rf, "", " ")
-			os.WriteFile(path, js, 0o644)
+			writeFileAtomic(path, js)
 			cmd := exec.Command(selfExe(), "-test.run", "^TestVerif$", "-verif.mode", "replay", "-verif.replay", path)
 			outb, err := cmd.CombinedOutput()
 			if ee, ok := err.(*exec.ExitError); !ok || ee.ExitCode() != 1 {
@@ -854,7 +846,7 @@ func checkMain(t *testing.T) {
 			}
 			frf := replayFile{Property: prop, Class: class, Detail: det, Scenario: wl.Scenario, Seed: wl.Seed, BaseSeed: *fSeed, RunIndex: wl.Idx, Hash: wl.Hash, Config: wl.Config, NDec: wl.NDec, OrigNDec: wl.NDec}
 			js, _ := json.MarshalIndent(&frf, "", " ")
-			os.WriteFile(path, js, 0o644)
+			writeFileAtomic(path, js)
 			mr = minimiseResult{OK: true, Detail: det, Orig: wl.NDec, Min: wl.NDec}
 			mhung, merr = false, nil
 			fmt.Printf("note: minimisation of %s was abandoned (a shrunken candidate did not terminate); reporting the unminimised run\n", class)
@@ -948,7 +940,7 @@ func checkMain(t *testing.T) {
 	js, _ := json.MarshalIndent(ev, "", " ")
 	evPath := filepath.Join(outDir, "evidence", prop+".json")
 	if exit != 2 {
-		if err := os.WriteFile(evPath, js, 0o644); err != nil {
+		if err := writeFileAtomic(evPath, js); err != nil {
 			fmt.Println("cannot write evidence:", err)
 			exit = 2
 		}
@@ -1000,6 +992,76 @@ var minimiseBudget = func() time.Duration {
 }()
 
 const hangAfter = 45 * time.Second
+
+// hangSignal watches a child process and fires when it is hung: it has burnt hangAfter of CPU
+// time without reporting progress (an endless loop), or it has reported nothing for hangAfter of
+// real time while using next to no CPU (blocked for good), or nothing at all for 15 minutes.
+// Judging by CPU time keeps the verdict independent of how loaded the machine is. progress (may
+// be nil) holds the UnixNano of the child's last output line.
+func hangSignal(pid int, progress *atomic.Int64, stop <-chan struct{}) <-chan struct{} {
+	out := make(chan struct{})
+	go func() {
+		tk := time.NewTicker(2 * time.Second)
+		defer tk.Stop()
+		lastSeen := int64(0)
+		if progress != nil {
+			lastSeen = progress.Load()
+		}
+		since := time.Now()
+		base := procCPU(pid)
+		for {
+			select {
+			case <-stop:
+				return
+			case <-tk.C:
+			}
+			if progress != nil {
+				if v := progress.Load(); v != lastSeen {
+					lastSeen, since, base = v, time.Now(), procCPU(pid)
+					continue
+				}
+			}
+			cpu := procCPU(pid) - base
+			wall := time.Since(since)
+			if cpu > hangAfter || (wall > hangAfter && cpu < wall/50) || wall > 15*time.Minute {
+				close(out)
+				return
+			}
+		}
+	}()
+	return out
+}
+
+// done2 turns the completion channel of a child into a stop channel for hangSignal without
+// consuming its value.
+func done2(done chan error) <-chan struct{} {
+	c := make(chan struct{})
+	go func() {
+		err := <-done
+		done <- err
+		close(c)
+	}()
+	return c
+}
+
+// procCPU is the CPU time (user+system) a process has used so far; 0 if it cannot be read.
+func procCPU(pid int) time.Duration {
+	b, err := os.ReadFile(fmt.Sprintf("/proc/%d/stat", pid))
+	if err != nil {
+		return 0
+	}
+	st := string(b)
+	if i := strings.LastIndexByte(st, ')'); i >= 0 {
+		st = st[i+1:]
+	}
+	f := strings.Fields(st)
+	if len(f) < 13 {
+		return 0
+	}
+	ut, _ := strconv.ParseInt(f[11], 10, 64)
+	stt, _ := strconv.ParseInt(f[12], 10, 64)
+	return time.Duration(ut+stt) * (time.Second / 100)
+}
 
 type crashInfo struct {
 	Idx    int
@@ -1155,6 +1217,16 @@ func minimiseMain(t *testing.T) {
 		Decisions: mspec.Decisions, NDec: countDec(mspec.Decisions), OrigNDec: countDec(first.Decisions), Hash: tr.Hash, Config: tr.Config, Trace: tail}
 	path := *fReplay
 	js, _ := json.MarshalIndent(&rf, "", " ")
-	os.WriteFile(path, js, 0o644)
+	writeFileAtomic(path, js)
 	emit(minimiseResult{OK: true, Detail: detail, Orig: rf.OrigNDec, Min: rf.NDec, Tries: tries})
+}
+
+// writeFileAtomic writes through a temporary file and a rename, so that a concurrent reader (another
+// invocation of a check, the race-mode post-processor) never sees half a file.
+func writeFileAtomic(path string, data []byte) error {
+	tmp := fmt.Sprintf("%s.%d.tmp", path, os.Getpid())
+	if err := os.WriteFile(tmp, data, 0o644); err != nil {
+		return err
+	}
+	return os.Rename(tmp, path)
 }
